@@ -203,6 +203,29 @@ def run_case(inp, with_obs=True):
             rec.calls += 3 * len(cvectors)
             if (snap(C.Q), snap(C.J), snap(C.h)) != snapC:
                 rec.fail("purity/container-evaluators", "a container evaluator modified the container's Q / J / h", d2)
+            # the container keeps reporting the same values after it was written to a file (both forms) and reported on
+            if cevs:
+                import os, tempfile
+                tdir = tempfile.mkdtemp(prefix="vq_c13_")
+                try:
+                    C.export(os.path.join(tdir, "x.qubo"), as_ising=False)
+                    C.export(os.path.join(tdir, "x.rudy"), as_ising=True)
+                    C.report()
+                    for (v, vcq, vci, vcs), isbin in zip(cevs, binary):
+                        x = arr(v, isbin)
+                        again_q, again_s = fr(C.evaluate_QUBO(x)), fr(C.evaluate_Ising(qt.x_to_s(x)))
+                        if again_q != vcq or again_s != vcs:
+                            rec.fail("oracle/container-after-export",
+                                     f"after export() / report() the container reports QUBO value {again_q} (before: {vcq}) and Ising value "
+                                     f"{again_s} (before: {vcs}) at x={vfmt(v)} (pattern {pat!r})",
+                                     {**d2, "x": v, "calls": "export(as_ising=False); export(as_ising=True); report(); evaluate again"})
+                            break
+                except Exception as e:  # noqa
+                    rec.fail("oracle/container-after-export", f"export / report raised {type(e).__name__}: {e} (pattern {pat!r})", d2)
+                finally:
+                    for fn in os.listdir(tdir):
+                        os.remove(os.path.join(tdir, fn))
+                    os.rmdir(tdir)
         if snap(A) != snapA:
             rec.fail("purity/QUBOContainer", f"QUBOContainer or its evaluators modified the caller's matrix (pattern {pat!r})", d2)
         conts.append((pat, oc, cevs))
